@@ -21,7 +21,8 @@ LEVEL = "exploration"
 RULE = ("Cases are 1..6 key/value pairs passed to set_conf: keys are option-like names (a hostile class "
         "contains CR/LF); values are exhaustively all strings of length <=4 (thorough <=5) over the critical "
         "alphabet {a, space, tab, double quote, backslash, '=', '#', single quote}, random printable ASCII up "
-        "to 200 chars, values with CR / LF / CRLF+injected command, ints, bools, empty. Oracle: exactly one "
+        "to 200 chars, values with CR / LF / CRLF+injected command, ints, bools, empty; plus an enumeration of long "
+        "lines (600 B .. 1.2 MiB, 1 .. 40 000 pairs). Oracle: exactly one "
         "CRLF-terminated line 'SETCONF ...' whose decoding by an independent kvline parser gives exactly the "
         "pairs in order (CR/LF: that, or an error with nothing written); the next command submitted afterwards must "
         "put exactly itself on the wire (nothing refused may have been left in the queue); one case in four makes the "
@@ -83,7 +84,33 @@ def exhaustive_cases(maxlen):
             yield {"pairs": [["ContactInfo", v], ["Nickname", "x"]]}
 
 
+def long_cases():
+    """lines far longer than anything above: > 512 B, > 64 KiB, > 1 MiB (LineReceiver's MAX_LENGTH limits what is READ,
+    not what is written) - as few or as many pairs.  Kept compact: ["key", unit, repetitions] is expanded by the driver."""
+    units = ["x", "a b", 'q"\\ ', "a=b,"]
+    for unit in units:
+        for total in (600, 5000, 70000):
+            yield {"long": [["ContactInfo", unit, total // len(unit)]], "busy": False}
+            yield {"long": [["ContactInfo", unit, total // (2 * len(unit))], ["Nickname", "y", 1],
+                            ["Log", unit, total // (2 * len(unit))]], "busy": False}
+    # many short pairs (a re-listed option with dozens of entries)
+    for n in (30, 120, 40000):
+        yield {"long": [["MapAddress", "10.%d.%d.%d a%d.example" % (i // 65536, (i // 256) % 256, i % 256, i), 1]
+                        for i in range(n)] if n < 1000 else [["MapAddress", "10.0.0.1 a.example", 1]] * n, "busy": False}
+    # beyond 1 MiB in three values
+    yield {"long": [["ContactInfo", "a b", 140000], ["Log", "x", 400000], ["Nickname", 'q"', 200000]], "busy": False}
+
+
 def drive(case):
+    if "long" in case:
+        case = dict(case, pairs=[[k, unit * reps] for k, unit, reps in case["long"]])
+        res = _drive(case)
+        res.label("long-line")
+        return res
+    return _drive(case)
+
+
+def _drive(case):
     """the set_conf() call on an idle connection, then what the NEXT command puts on the wire (a refused command must
     not have been left in the queue); with case["busy"] the same call made while another command is unanswered,
     followed by a second set_conf() - each call must still reach Tor as its own line"""
@@ -239,8 +266,9 @@ def _drive_call(case):
         return res, pipe
     # one line
     if data.count(b"\r") + data.count(b"\n") != 2 or not data.endswith(b"\r\n"):
-        tag = "line-injection"
-        res.bad(tag, "pairs %r wrote %r" % (pairs, data))
+        tag = "line-injection" if hostile else "more-than-one-command-line"
+        res.bad(tag, "%d pairs, %d characters: wrote %d line breaks: %r ... pairs %r" % (
+            len(pairs), sum(len(str(v)) for k, v in pairs), data.count(b"\n"), data[:200], pairs))
         return res, pipe
     line = data[:-2].decode("latin-1")
     if not line.startswith("SETCONF "):
@@ -308,5 +336,6 @@ MUTANTS = [
 
 def run(ctx):
     ctx.search("setconf", cases(), quick=1500, thorough=20000)
+    ctx.enumerate("setconf", long_cases(), name="long-lines-600B-to-1.2MiB")
     ctx.enumerate("setconf", exhaustive_cases(4 if ctx.quick() else 5),
                   name="all-values-len<=%d-over-critical-alphabet" % (4 if ctx.quick() else 5))
